@@ -138,7 +138,8 @@ func checkC13(w *Worker) {
 	w.Explore("large-exports-to-a-slow-sink", ExploreOpts{ShardDepth: 2, Budgets: map[string]int{"appsched": 1}}, func(x *Exec) {
 		which := x.Choose(3, "input:export")
 		n := []int{1500, 3000, 6000}[x.Choose(3, "input:rows")]
-		slowSink = true
+		// through the program's own option loader and standard output, or through the CmdUtils seam into the harness's sink
+		slowSink = x.Choose(2, "input:driver") == 1
 		defer func() { slowSink = false }()
 		c, want, dec := c13Large(which, n)
 		x.Case(fmt.Sprint("slow", which, n), true)
